@@ -784,7 +784,10 @@ class Server:
             if nxt.module not in seen:
                 seen.add(nxt.module)
                 new_files.append(nxt)
-            if nxt.path in changed_paths:
+            if nxt.path in changed_paths or (
+                nxt.module in graph and nxt.path is not None and graph[nxt.module].path != nxt.path
+            ):
+                # Changed file, or the module is now defined by another file (stub added/removed).
                 assert nxt.path is not None  # TODO
                 changed.append((nxt.module, nxt.path))
             elif nxt.module in graph:
@@ -928,6 +931,14 @@ class Server:
             removed.append((source.module, path))
 
         self.add_explicitly_new(sources, changed)
+
+        # Find anything whose file changed while the module name stayed (stub added or removed):
+        # the new file may be unchanged since the watcher last looked at it.
+        last_path = {s.module: s.path for s in self.previous_sources}
+        for s in sources:
+            if s.module in last_path and s.path and last_path[s.module] != s.path:
+                if (s.module, s.path) not in changed:
+                    changed.append((s.module, s.path))
 
         # Find anything that has had its module path change because of added or removed __init__s
         last = {s.path: s.module for s in self.previous_sources}
